@@ -140,9 +140,12 @@ VARIABLES l,      \* next line to consume
           gprev,  \* last global epoch
           viol,   \* set of <<line, monitor id>>          (L1: property monitors)
           div,    \* set of <<line, reason>>              (L2: divergence from the Broker spec)
-          base    \* line of the last "Init" (start of the current trace inside a shard)
+          base,   \* line of the last "Init" (start of the current trace inside a shard)
+          dirty   \* an operation of the current trace panicked: the store may be half-updated (parking_lot locks do not
+                  \* poison), which Broker.tla does not describe - refinement (L2) is not evaluated for the rest of that trace;
+                  \* the L1 monitors (C12: a panic is a violation by itself) go on
 
-vars == <<l, hist, gprev, viol, div, base>>
+vars == <<l, hist, gprev, viol, div, base, dirty>>
 
 
 Init ==
@@ -152,6 +155,7 @@ Init ==
     /\ viol = {}
     /\ div = {}
     /\ base = 1
+    /\ dirty = FALSE
 
 Step ==
     /\ l <= N
@@ -163,8 +167,11 @@ Step ==
                     \cup (IF reset \/ l = 1 THEN {} ELSE EventMon(Rec[l-1], e))
        IN /\ viol' = viol \cup {<<l, m>> : m \in found}
           /\ base' = IF e.op = "Init" THEN l ELSE base
+          /\ dirty' = IF e.op = "Init" THEN FALSE ELSE (dirty \/ e.res = "panic")
           /\ div' = div \cup {<<l, r>> : r \in (IF l = 1 \/ e.op = "Init"
                                                   THEN (IF ViewsAgree(e) THEN {} ELSE {"L2.views"})
+                                                  ELSE IF e.res = "panic" THEN {"L2.panic_not_modelled"}
+                                                  ELSE IF dirty THEN {}
                                                   ELSE L2(e, Rec[l-1], base))}
           /\ hist' = NewHist(h0, e.obs)
           /\ gprev' = e.S.gepoch
